@@ -1183,7 +1183,8 @@ class Engine:
             if res is not NotImplemented:
                 return self.finish_call(st, fr, res, dest, target, t)
         # 3. inline workspace bodies
-        if self.inline(name, rname) and len(st.frames) < self.max_depth:
+        if self.inline(name, rname) and (len(st.frames) < self.max_depth or self._is_leaf(self.find_body(rname) or self.find_body(name))):
+            # (a body that calls nothing cannot recurse: the depth bound, which exists to cut recursion, does not apply to it)
             body = self.find_body(rname) or self.find_body(name)
             if body is not None and body.kind != "Closure":
                 st.trace.append(Event("enter", name, rname, tuple(snapshot(a) for a in args), fr.bi, line, len(st.frames), fr.body.npath if fr.body else "?"))
@@ -1199,6 +1200,16 @@ class Engine:
                 self.havoc(a)
         r = st.fresh(("ret", name, fr.bi, tuple(snapshot(a) for a in args)))
         return self.finish_call(st, fr, [(st, r)], dest, target, t)
+
+    def _is_leaf(self, body):
+        if body is None:
+            return False
+        c = getattr(self, "_leaf_cache", None)
+        if c is None:
+            c = self._leaf_cache = {}
+        if body.npath not in c:
+            c[body.npath] = not any(body.mir.blocks[bi]["term"]["k"] == "call" for bi in body.mir.live_blocks())
+        return c[body.npath]
 
     def concrete_gargs(self, st, c, resolved=False):
         """generic arguments of a callee with the caller's generic parameters (FORMAT, T, N ...) replaced by what the
